@@ -4,8 +4,9 @@ the forms documented by sievelib's factory module and test suite."""
 from hypothesis import strategies as st
 
 HOSTILE = ['"', "\\", ",", "[", "]", "(", ")", "{", "}", ";", "#", " ", "\n", "\r\n", "é", "€", "😀", "a", "b", "Z", "0",
-           "@", ".", "-", ":", "$", "*", "?", "/*", "text:", "'", "text:\nx\n.", "\n."]
-MILD = [",", " ", "[", "]", "é", "€", "a", "b", "Z", "0", "@", ".", "-", "(", ")", "😀", ";", "{", "}"]
+           "@", ".", "-", ":", "$", "*", "?", "/*", "text:", "'", "text:\nx\n.", "\n.",
+           "e\u0301", "\u212b", "\u1100\u1161"]
+MILD = [",", " ", "[", "]", "é", "€", "a", "b", "Z", "0", "@", ".", "-", "(", ")", "😀", ";", "{", "}", "e\u0301", "\u212b"]
 BENIGN = ["a", "b", "c", "X", "Y", "0", "1", "-", "_", ".", "@"]
 
 SPECIAL = ("true", "false", "size", "exists", "envelope", "address", "body", "currentdate")
